@@ -118,6 +118,8 @@ class Env:
         read being executed again."""
         if not self.reassignable(l):
             return True
+        if read_pos == site_pos:
+            return True           # read at the site itself: the value is the one the site sees
         for d, dpath, elem in self.unstable_positions(l):
             if d == read_pos:
                 continue
@@ -189,7 +191,9 @@ class Env:
             if d and d[2] == "rv" and d[3]["k"] == "bin" and d[3]["op"].endswith("WithOverflow") and pr[0]["f"] == 0:
                 return self.rv_term(d[3], (d[0], d[1]), depth - 1, root)
         # deref of a reference temp: *(&x) == x
-        if pr == ["*"] and root not in b.names:
+        # (also through a named shared reference bound once, e.g. the by-reference binding of a match guard)
+        if pr == ["*"] and (root not in b.names or (b.lty(root).startswith("&") and not b.lty(root).startswith("&mut")
+                                                    and not self.is_arg(root))):
             d = b.single_def(root)
             if d and d[2] == "rv" and d[3]["k"] == "ref":
                 return self.place_term(d[3]["p"], (d[0], d[1]), depth - 1)
@@ -589,10 +593,11 @@ class Env:
         return None
 
     # ---- collecting everything known at a site
-    def dominating_edge_facts(self, site_bb):
+    def dominating_edge_facts(self, site_bb, _seen=None):
         """facts from every dominating two-way branch whose taken edge dominates the site."""
         b = self.b
         facts = []
+        _seen = (_seen or frozenset()) | {site_bb}
         for g in sorted(b.dom.get(site_bb, ())):
             t = b.term(g)
             if t["k"] != "switch":
@@ -623,6 +628,18 @@ class Env:
                     continue
                 for fx in self.cond_facts(t["d"], gpos, truth):
                     facts.append((fx, gpos))
+                # a boolean temporary that is set to constants in several blocks (`a && b`, `matches!(x, lo..=hi)`):
+                # if exactly one block stores the taken value, control came through that block, so whatever holds on
+                # entry to it holds here (for terms that are stable since, which the solver checks per fact position)
+                dp = op_place(t["d"])
+                if dp is not None and not dp["p"] and dp["l"] not in b.names and not self.is_arg(dp["l"]):
+                    alld = b.defs.get(dp["l"], [])
+                    if len(alld) >= 2 and all(d[2] == "rv" and d[3]["k"] == "use" and "k" in d[3]["o"]
+                                              and "int" in d[3]["o"]["k"] for d in alld):
+                        want = "1" if truth else "0"
+                        src = [d[0] for d in alld if str(d[3]["o"]["k"]["int"]) == want]
+                        if len(src) == 1 and src[0] not in _seen:
+                            facts.extend(self.dominating_edge_facts(src[0], _seen))
             elif ty_range(dty):
                 # integer match: on a listed edge the scrutinee equals the value
                 d = self.op_term(t["d"], gpos)
@@ -671,6 +688,64 @@ class Env:
             for r in dt.reads:
                 work.append(r[0])
         return facts
+
+    def origin_call(self, l):
+        """the crate-local function whose successful result a single-assignment local holds (through `?`, unwrap,
+        expect and payload projections); None otherwise."""
+        b = self.b
+        F = b.facts
+        for _ in range(10):
+            alld = b.defs.get(l, [])
+            if len(alld) != 1 or alld[0][2] == "proj":
+                return None
+            d = alld[0]
+            if d[2] == "call":
+                t = d[3]
+                f = t["f"]
+                tgt = f.get("res") or f.get("fn") or ""
+                if f.get("loc") and tgt in F.bodies:
+                    return F.bodies[tgt]
+                short = tgt.rsplit("::", 1)[-1]
+                if short in ("branch", "unwrap", "expect") and t["args"]:
+                    p = op_place(t["args"][0])
+                    if p is None or p["p"]:
+                        return None
+                    l = p["l"]
+                    continue
+                return None
+            rv = d[3]
+            if rv["k"] != "use":
+                return None
+            p = op_place(rv["o"])
+            if p is None:
+                return None
+            pr = p["p"]
+            if pr and not (len(pr) == 2 and isinstance(pr[0], dict) and pr[0].get("down") in ("Continue", "Some", "Ok")
+                           and isinstance(pr[1], dict) and pr[1].get("f") == 0):
+                return None
+            l = p["l"]
+        return None
+
+    def callee_len_facts(self, locals_):
+        """postconditions of crate-local callees: a local that holds the successful result of `g(..)` has at least the
+        length that every successful return of g is proved to have (summary computed by the same solver in g)."""
+        b = self.b
+        out = []
+        for l in sorted(x for x in locals_ if x is not None):
+            if l not in b.names or self.is_arg(l):
+                continue
+            g = self.origin_call(l)
+            if g is None:
+                continue
+            k = ret_len_lower(g)
+            if k <= 0:
+                continue
+            d = b.defs[l][0]
+            dpos = (d[0], d[1] if d[1] != "T" else 10**6)
+            t = self.local_term(l, dpos, 6)
+            ln = Term("len(%s)" % strip_ref(repr(t)), 0, len_reads(((l, dpos),)), "usize")
+            out.append((Term(None, 0), ln, -k))
+        return out
 
     def loop_var_facts(self):
         """for i in lo..hi  =>  lo <= i < hi ; chunks/enumerate patterns are handled by tables."""
@@ -725,6 +800,221 @@ class Env:
                 vt = Term(self.uname(v), 0, [(v, (bi, si))], b.lty(v))
                 facts.append(((lo, vt, 0), dpos, v))
                 facts.append(((vt, hi, 0 if incl else -1), dpos, v))
+        return facts
+
+    def static_len_upper(self, o, depth=8):
+        """static upper bound on the length of the array / slice / Vec view denoted by operand o (None = unknown)."""
+        b = self.b
+        if depth <= 0:
+            return None
+        k = op_const(o)
+        if k is not None:
+            kb = const_bytes(k)
+            return len(kb) if kb is not None else None
+        p = op_place(o)
+        if p is None:
+            return None
+        if not [e for e in p["p"] if e != "*"]:
+            m = re.search(r"\[[^\[\];]*; (\d+)\]$", b.lty(p["l"]).strip())
+            if m:
+                return int(m.group(1))
+        if [e for e in p["p"] if e != "*"]:
+            return None
+        alld = b.defs.get(p["l"], [])
+        if len(alld) != 1 or alld[0][2] == "proj":
+            return None
+        d = alld[0]
+        if d[2] == "rv":
+            rv = d[3]
+            if rv["k"] in ("use", "cast"):
+                return self.static_len_upper(rv["o"], depth - 1)
+            if rv["k"] == "ref":
+                return self.static_len_upper({"c": rv["p"]}, depth - 1)
+            return None
+        t = d[3]
+        short = (t["f"].get("fn") or "").rsplit("::", 1)[-1]
+        args = t["args"]
+        if short in ("index", "index_mut") and len(args) == 2:
+            ip = op_place(args[1])
+            if ip is not None and not ip["p"]:
+                dd = b.single_def(ip["l"])
+                if dd and dd[2] == "rv" and dd[3]["k"] == "agg" and dd[3]["kind"].get("a") == "adt":
+                    adt = dd[3]["kind"]["adt"].rsplit("::", 1)[-1]
+                    vals = [const_int(op_const(x)) if op_const(x) is not None else None for x in dd[3]["ops"]]
+                    if adt == "RangeTo" and vals[0] is not None:
+                        return vals[0]
+                    if adt == "RangeToInclusive" and vals[0] is not None:
+                        return vals[0] + 1
+                    if adt == "Range" and vals[0] is not None and vals[1] is not None:
+                        return max(0, vals[1] - vals[0])
+            inner = self.static_len_upper(args[0], depth - 1)
+            return inner
+        if short in ("as_slice", "as_mut_slice", "as_ref", "as_mut", "deref", "deref_mut", "as_bytes", "borrow", "iter", "iter_mut", "into_iter") and args:
+            return self.static_len_upper(args[0], depth - 1)
+        return None
+
+    def accumulator_bound(self, l):
+        """upper bound of an accumulator: a local initialised to a constant c0 and otherwise only updated by checked
+        `l = l + t` (0 <= t <= M statically) at most once per turn of a loop over a slice iterator of statically bounded
+        length N: then l <= c0 + N*M everywhere.  None if the pattern does not apply."""
+        b = self.b
+        alld = b.defs.get(l, [])
+        if len(alld) < 2 or any(d[2] != "rv" for d in alld) or self.is_arg(l):
+            return None
+        tr = ty_range(b.lty(l))
+        if not tr or tr[0] != 0:
+            return None
+        init, upd = [], []
+        for d in alld:
+            rv = d[3]
+            if rv["k"] == "use" and op_const(rv["o"]) is not None and const_int(op_const(rv["o"])) is not None:
+                init.append((d, const_int(op_const(rv["o"]))))
+                continue
+            # l = move (tmp.0) with tmp = AddWithOverflow(copy l, t)
+            ok = False
+            if rv["k"] == "use":
+                p = op_place(rv["o"])
+                if p is not None and len(p["p"]) == 1 and isinstance(p["p"][0], dict) and p["p"][0].get("f") == 0:
+                    dd = b.single_def(p["l"])
+                    if dd and dd[2] == "rv" and dd[3]["k"] == "bin" and dd[3]["op"] == "AddWithOverflow":
+                        a, c = dd[3]["a"], dd[3]["b"]
+                        for x, y in ((a, c), (c, a)):
+                            px = op_place(x)
+                            if px is not None and not px["p"] and self._is_copy_of(px["l"], l, (dd[0], dd[1])):
+                                r = self.term_range(self.op_term(y, (dd[0], dd[1])))
+                                if r and r[0] >= 0 and r[1] < 2 ** 40:
+                                    upd.append((d, r[1]))
+                                    ok = True
+                                break
+            if not ok:
+                return None
+        if len(init) != 1 or not upd:
+            return None
+        loops = b.loops()
+        total = init[0][1]
+        for d, m in upd:
+            inner = None
+            for h, blk in loops.items():
+                if d[0] in blk and (inner is None or len(blk) < len(loops[inner])):
+                    inner = h
+            if inner is None:
+                return None
+            blk = loops[inner]
+            ib = init[0][0][0]
+            if ib in blk or not b.dominates(ib, inner):
+                return None        # the constant initialisation precedes the loop
+            # ... and is repeated on every turn of each enclosing loop (otherwise the sum carries over)
+            for h2, blk2 in loops.items():
+                if h2 != inner and inner in blk2:
+                    if ib not in blk2 or not self._every_cycle_passes(h2, blk2, ib):
+                        return None
+            # the update block is not inside a deeper loop (inner is the innermost) and the loop is driven by a slice iterator
+            nx = [c for c in b.calls if c.bb in blk and (c.fn or "").endswith("Iterator::next")
+                  and re.search(r"<(std|core)::slice::(Iter|IterMut)<", c.full or "")]
+            drv = None
+            for c in nx:
+                # header region: every cycle passes the call
+                if self._every_cycle_passes(inner, blk, c.bb):
+                    drv = c
+            if drv is None:
+                return None
+            it = self._deref_local(drv.args[0])
+            if it is None:
+                return None
+            n = self.static_len_upper({"c": {"l": it, "p": []}})
+            if n is None:
+                return None
+            # several updates in one loop: each at most once per turn -> N*M each
+            total += n * m
+        return total
+
+    def _is_copy_of(self, t, l, pos):
+        if t == l:
+            return True
+        d = self.b.single_def(t)
+        if d and d[2] == "rv" and d[3]["k"] == "use":
+            p = op_place(d[3]["o"])
+            return p is not None and not p["p"] and p["l"] == l and d[0] == pos[0]
+        return False
+
+    def _every_cycle_passes(self, head, blocks, must):
+        b = self.b
+        if head == must:
+            return True
+        seen = set()
+        st = [x for x in b.succ[head] if x in blocks and x != must]
+        while st:
+            x = st.pop()
+            if x == head:
+                return False
+            if x in seen:
+                continue
+            seen.add(x)
+            st.extend(y for y in b.succ[x] if y in blocks and y != must)
+        return True
+
+    def chunk_var_facts(self):
+        """for c in s.chunks_exact(k) / s.windows(k)  =>  len(c) == k ;  s.chunks(k)  =>  1 <= len(c) <= k  (k constant)."""
+        b = self.b
+        facts = []
+        for c in b.calls:
+            nm = c.fn or ""
+            if not nm.endswith("Iterator::next"):
+                continue
+            full = c.full or ""
+            m = re.search(r"slice::(ChunksExactMut|ChunksExact|Windows|ChunksMut|Chunks|RChunksExact|RChunks)<", full)
+            if not m:
+                continue
+            kind = m.group(1)
+            it = self._deref_local(c.args[0])
+            if it is None:
+                continue
+            d = b.single_def(it)
+            for _ in range(4):
+                if d is not None and d[2] == "rv" and d[3]["k"] == "use":
+                    ip = op_place(d[3]["o"])
+                    if ip is None or ip["p"]:
+                        break
+                    d = b.single_def(ip["l"])
+                elif d is not None and d[2] == "call" and (d[3]["f"].get("fn") or "").endswith("IntoIterator::into_iter"):
+                    ip = op_place(d[3]["args"][0])
+                    if ip is None or ip["p"]:
+                        break
+                    d = b.single_def(ip["l"])
+                else:
+                    break
+            if d is None or d[2] != "call":
+                continue
+            mk = (d[3]["f"].get("fn") or "").rsplit("::", 1)[-1]
+            if mk not in ("chunks_exact", "chunks_exact_mut", "windows", "chunks", "chunks_mut", "rchunks", "rchunks_exact") or len(d[3]["args"]) != 2:
+                continue
+            k = op_const(d[3]["args"][1])
+            k = const_int(k) if k is not None else None
+            if k is None or k <= 0:
+                continue
+            dest = c.dest
+            if dest["p"]:
+                continue
+            for bi, si, s in b.stmts():
+                rv = s.get("rv")
+                if not rv or rv["k"] != "use":
+                    continue
+                p = op_place(rv["o"])
+                if p is None or p["l"] != dest["l"] or len(p["p"]) != 2:
+                    continue
+                if not (isinstance(p["p"][0], dict) and p["p"][0].get("down") == "Some"):
+                    continue
+                if s["lhs"]["p"]:
+                    continue
+                v = s["lhs"]["l"]
+                vt = self.local_term(v, (bi, si), 2)
+                ln = Term("len(%s)" % strip_ref(repr(vt)), 0, len_reads(((v, (bi, si)),)), "usize")
+                kt = Term(None, k)
+                facts.append(((ln, kt, 0), (bi, si), v))
+                if "Exact" in kind or kind == "Windows":
+                    facts.append(((kt, ln, 0), (bi, si), v))
+                else:
+                    facts.append(((Term(None, 1), ln, 0), (bi, si), v))
         return facts
 
     def _deref_local(self, o):
@@ -958,6 +1248,55 @@ class Solver:
         return -v + t.off if v != INF else -INF
 
 
+_RET_LEN = {}
+
+
+def ret_len_lower(g):
+    """proved lower bound on the length of the value carried by every successful return of body g (0 = nothing proved).
+    Successful returns: `_0 = Ok(x)`, `_0 = Some(x)`, or `_0 = x` when the return type is not Result/Option."""
+    key = (id(g.facts), g.path)
+    if key in _RET_LEN:
+        return _RET_LEN[key]
+    _RET_LEN[key] = 0
+    rty = g.lty(0)
+    wrapped = bool(re.match(r"^(std|core)::(result::Result|option::Option)<", rty))
+    env = Env(g)
+    k = None
+    for c in g.calls:
+        if c.dest is not None and c.dest["l"] == 0:
+            if "FromResidual" in (c.fn or ""):
+                continue
+            _RET_LEN[key] = 0
+            return 0
+    for bi, si, s in g.stmts():
+        if "lhs" not in s or s["lhs"]["l"] != 0:
+            continue
+        rv = s["rv"]
+        payload = None
+        if s["lhs"]["p"]:
+            k = 0
+            break
+        if rv["k"] == "agg" and rv["kind"].get("a") == "adt" and rv["kind"].get("var") in ("Ok", "Some", "Err", "None") and wrapped:
+            if rv["kind"]["var"] in ("Err", "None"):
+                continue
+            payload = rv["ops"][0]
+        elif rv["k"] == "use" and not wrapped:
+            payload = rv["o"]
+        else:
+            k = 0
+            break
+        a = env.op_term(payload, (bi, si))
+        ln = Term("len(%s)" % strip_ref(repr(a)), 0, len_reads(a.reads), "usize")
+        S, _, ok = knowledge(env, bi, si, [ln])
+        lo = S.lower(ln) if ok(ln) else 0
+        if lo == -INF or lo < 0:
+            lo = 0
+        k = lo if k is None else min(k, lo)
+    k = int(k or 0)
+    _RET_LEN[key] = k
+    return k
+
+
 def knowledge(env, site_bb, site_idx, terms):
     """Solver holding every usable fact at the site for the given requirement terms."""
     b = env.b
@@ -980,6 +1319,8 @@ def knowledge(env, site_bb, site_idx, terms):
         fx, dpos, v = item
         # the loop variable fact holds wherever the variable is read after its assignment from next()
         cands.append((fx, "loop"))
+    for item in env.chunk_var_facts():
+        cands.append((item[0], "chunk"))
     # locals mentioned anywhere (facts or requirement)
     mentioned = set()
     for t in terms:
@@ -991,6 +1332,14 @@ def knowledge(env, site_bb, site_idx, terms):
                 mentioned.add(r[0])
     for fx, dpos in env.def_facts(mentioned):
         cands.append((fx, "def"))
+    for l in sorted(x for x in mentioned if x is not None):
+        if len(b.defs.get(l, [])) >= 2:
+            ub = env.accumulator_bound(l)
+            if ub is not None:
+                at = Term(env.uname(l), 0, [(l, site_pos)], b.lty(l))
+                cands.append(((at, Term(None, 0), ub), "accumulator"))
+    for fx in env.callee_len_facts(mentioned):
+        cands.append((fx, "postcondition"))
     for fx in list(env.intrinsic):
         cands.append((fx, "expr"))
     for fx, why in cands:
